@@ -114,7 +114,10 @@ class TapeRecorder(object):
         # Take the recording atomically so it is aborted exactly once even when discarded concurrently
         with self._state_lock:
             recording = self._active_recording
-            self._reset_active_recording()
+            if recording is not None:
+                # Without an active recording (e.g. invoked by the replayed code during playback) there is nothing to
+                # discard, and the outputs invocation counter of the running playback must be left as is
+                self._reset_active_recording()
         if recording is not None:
             _logger.info(
                 u'Recording with id {} was discarded'.format(recording.id))
